@@ -1,0 +1,17 @@
+// Copyright The gittuf Authors
+// SPDX-License-Identifier: Apache-2.0
+
+//go:build verif
+
+// gvc contracts (comment-only, read under the "verif" build tag).
+
+package v02
+
+//@ # C09 (current schema): as v01, plus: a commit digest is only acceptable for tag references.
+//@ func [C09] Validate -> (err)
+//@   requires env != nil
+//@   ensures namesSubject: err == nil ==> len(attestation.Subject) >= 1 && attestation.Subject[0] != nil
+//@   ensures subjectDigest: err == nil ==> (has(attestation.Subject[0].Digest, digestGitTreeKey) && attestation.Subject[0].Digest[digestGitTreeKey] == targetID) || (!has(attestation.Subject[0].Digest, digestGitTreeKey) && has(attestation.Subject[0].Digest, digestGitCommitKey) && attestation.Subject[0].Digest[digestGitCommitKey] == targetID && strings.HasPrefix(targetRef, gitinterface.TagRefPrefix))
+//@   ensures namesTarget: err == nil ==> ite(has(predicate, targetIDKey), predicate[targetIDKey], nil) == toIfc(targetID)
+//@   ensures namesFrom: err == nil ==> ite(has(predicate, fromIDKey), predicate[fromIDKey], nil) == toIfc(fromID)
+//@   ensures namesRef: err == nil ==> ite(has(predicate, targetRefKey), predicate[targetRefKey], nil) == toIfc(targetRef)
